@@ -70,9 +70,14 @@ CLAIMS["C11"] = ("proof",
     "real on six circuit shapes (incl. descending, non-contiguous and hash-unordered mode sets {1,8}) with all parameters "
     "symbolic: the accumulated matrix equals the ordered product of the documented actions, the emitted GaussianTransform + "
     "Dgates have the same action on the register order they state, elision only within np.allclose tolerance (shape-bounded, "
-    "reported separately). F13 (hash-order layout) found and repaired; F14 (dagger ignored) is an open finding.",
+    "reported separately). Bounded stand-in (c11_compilers): generated circuits over every Gaussian gate class on sparse, "
+    "scrambled mode subsets of 4-11 mode registers compiled with gaussian_unitary / passive and compared exactly with the "
+    "documented action of the emitted GaussianTransform / Dgate / PassiveChannel; gaussian_merge on hybrid circuits compared on "
+    "the Fock simulator. F13 (hash-order layout), F51, F52 (gaussian_merge reordering) found and repaired; F14 (dagger ignored) "
+    "and F34 (GaussianTransform of such results not decomposable) are open findings.",
     _TB + "thewalrus.symplectic helpers are executable models written from its documentation (conformance-tested natively); "
-    "ops.GaussianTransform.__init__ is a contract stub. gaussian_merge (DAG surgery) is not covered.",
+    "ops.GaussianTransform.__init__ is a contract stub. gaussian_merge (DAG surgery over networkx) is covered by the bounded "
+    "stand-in only.",
     "deductive verification: VCs from the real source + z3/cvc5", "DESIGN.md 5/C11")
 CLAIMS["C17"] = ("other",
     "Helper lemmas PROVED for all values: T and Ti have the documented 2x2 block and are the identity elsewhere for every matrix "
